@@ -91,6 +91,16 @@ def dual_model(ctx, names, name, params=()):
     return run
 
 
+def _rows(model, xs, vs, k):
+    """apply a k-input model row by row to a flattened [m x k] input; concatenate values and derivatives"""
+    vals, ders = [], []
+    for i in range(0, len(xs), k):
+        a, b = model(xs[i:i + k], vs[i:i + k])
+        vals += a
+        ders += b
+    return vals, ders
+
+
 def run(ctx):
     import odak.learn.wave as LW
     import odak.learn.raytracing as LR
@@ -142,6 +152,30 @@ def run(ctx):
             jvp_check(ctx, 'refract/direction', lambda x: LR.refract(torch.stack([torch.zeros(3, dtype=D), x]).unsqueeze(0),
                                                                      torch.stack([torch.zeros(3, dtype=D), nvec]).unsqueeze(0), 1.0, 1.5, error=1e-9)[0, 1],
                       dvec, 1e-5, 1e-6, (lambda xs, vs: dual_model(ctx, names, 'refract', (1.0 / 1.5, 1e-9))(xs + nvec.tolist(), vs + [0.0, 0.0, 0.0])) if ctx.drv_ok else None)
+        # create_ray: direction cosines from angles in degrees; axis-aligned rays (90 / 270 / -90 degrees, where the cosine vanishes) are
+        # ordinary smooth points of cos, and the ones optical-axis rays sit on
+        for tag, ang in (('random', rnd(2, 3, lo=-170, hi=170)),
+                         ('axis_aligned', torch.tensor([[90., 90., 0.], [30., 60., 90.], [270., -90., 180.]], dtype=D)),
+                         ('axis_aligned', torch.tensor([[rng.choice([90., -90., 270., 0., 180.]) for _ in range(3)] for _ in range(2)], dtype=D))):
+            jvp_check(ctx, 'create_ray/angles/' + tag, lambda x: LR.create_ray(torch.zeros_like(x), x)[:, 1], ang, 2e-3, 2e-6,
+                      (lambda xs, vs: (lambda r: r)(_rows(dual_model(ctx, names, 'create_ray'), xs, vs, 3))) if ctx.drv_ok else None,
+                      cls={'angles': tag}, h=1e-2)
+        jvp_check(ctx, 'create_ray/start_points', lambda x: LR.create_ray(x, torch.tensor([[30., 60., 90.], [10., 85., 80.]]))[:, 0], rnd(2, 3, dtype=torch.float32), 2e-2)
+        jvp_check(ctx, 'create_ray/direction=True', lambda x: LR.create_ray(torch.zeros_like(x), x, direction=True)[:, 1], rnd(2, 3, dtype=torch.float32), 2e-2)
+        jvp_check(ctx, 'create_ray -> intersect_w_surface', lambda x: LR.intersect_w_surface(LR.create_ray(torch.tensor([[0.1, 0.2, 0.]]), x),
+                                                                                              torch.tensor([[0., 0, 2], [1.5, 0.1, 2.2], [0.2, 1.4, 1.9]]))[0][:, 0].reshape(-1),
+                  torch.tensor([[90., 90., 0.]], dtype=torch.float32), 3e-2, cls={'angles': 'axis_aligned'}, h=5e-2)
+        jvp_check(ctx, 'propagate_ray', lambda x: LR.propagate_ray(torch.stack([x[0], x[1]]).unsqueeze(0), x[2, :1])[:, 0], rnd(3, 3, dtype=torch.float32), 2e-2, 2e-3,
+                  (lambda xs, vs: dual_model(ctx, names, 'propagate_ray')(xs[:7], vs[:7])) if ctx.drv_ok else None)
+        jvp_check(ctx, 'create_ray_from_all_pairs', lambda x: LR.create_ray_from_all_pairs(x[:2], x[2:] + 3.0)[:, 1], rnd(5, 3, dtype=torch.float32), 2e-2)
+        tris = torch.tensor([[[0., 0, 2], [1.5, 0.1, 2.2], [0.2, 1.4, 1.9]], [[0., 0, 3], [1.5, 0.3, 3.2], [0.1, 1.4, 2.9]]], dtype=torch.float32)
+        jvp_check(ctx, 'intersect_w_surface_batch/ray', lambda x: LR.intersect_w_surface_batch(torch.stack([x[0], x[1] / x[1].norm()]).unsqueeze(0), tris)[0][..., 0, :].reshape(-1),
+                  torch.tensor([[0.3, 0.3, 0.0], [0.05, 0.02, 1.0]], dtype=torch.float32) + rnd(2, 3, lo=-0.05, hi=0.05, dtype=torch.float32), 3e-2)
+        jvp_check(ctx, 'intersect_w_triangle_batch/triangles', lambda t: LR.intersect_w_surface_batch(torch.tensor([[[0.3, 0.3, 0.0], [0.0, 0.0, 1.0]]]), t)[1].reshape(-1),
+                  tris + rnd(2, 3, 3, lo=-0.05, hi=0.05, dtype=torch.float32), 3e-2)
+        jvp_check(ctx, 'get_triangle_normal', lambda t: LR.get_triangle_normal(t)[:, 1].reshape(-1), tris + rnd(2, 3, 3, lo=-0.05, hi=0.05, dtype=torch.float32), 3e-2)
+        jvp_check(ctx, 'reflect/normal', lambda x: LR.reflect(torch.tensor([[0., 0, 0], [0.3, 0.2, 0.9]]), torch.stack([torch.zeros(3), x]))[:, 1],
+                  torch.tensor([0.1, 0.2, 1.0]) + rnd(3, lo=-0.1, hi=0.1, dtype=torch.float32), 2e-2)
         jvp_check(ctx, 'create_ray_from_two_points', lambda x: LR.create_ray_from_two_points(x[0], x[1])[:, 1], rnd(2, 3, lo=-2, hi=2, dtype=torch.float32), 2e-2)
         tri = torch.tensor([[0., 0, 2], [1.5, 0.1, 2.2], [0.2, 1.4, 1.9]], dtype=torch.float32)
         jvp_check(ctx, 'intersect_w_triangle/ray', lambda x: torch.cat([LR.intersect_w_triangle(torch.stack([x[0], x[1] / x[1].norm()]), tri)[0][:, 0].reshape(-1),
